@@ -222,6 +222,54 @@ static void emit_lu_case(const SpMat& m, bool trip_ctor, Rng& rng, int nrhs)
     printf("E\n");
 }
 
+// large systems (the exact model solve is out of reach there): non-symmetric, strictly diagonally dominant lattice matrices with rows
+// scaled over six orders of magnitude, shuffled column order, a stored zero per row; the backward error of every solve is computed
+// here in long double.  Sizes straddle the powers of two and the 10 000 mark at which other parts of the library switch code paths.
+static void lu_big(Rng& rng, bool thorough)
+{
+    using triplet = SparseMatrixCSR<double>::triplet_type;
+    std::vector<std::pair<int, int>> shapes = {{33, 31}, {42, 50}, {51, 51}, {65, 65}};
+    if (thorough) { shapes.push_back({101, 101}); shapes.push_back({128, 90}); }
+    for (auto [a, b] : shapes) {
+        int n = a * b;
+        std::vector<std::vector<std::pair<int, double>>> rows(n);
+        for (int i = 0; i < n; i++) {
+            int p = i / b, q = i % b;
+            std::vector<std::pair<int, double>> r;
+            double off = 0;
+            auto add = [&](int pp, int qq) { if (pp < 0 || pp >= a || qq < 0 || qq >= b) return; double v = rng.uniform(-1.0, 1.0); if (rng.coin(0.1)) v = 0.0; r.push_back({pp * b + qq, v}); off += std::abs(v); };
+            add(p - 1, q); add(p + 1, q); add(p, q - 1); add(p, q + 1);
+            if (rng.coin(0.3)) add(p - 1, q + 1);
+            r.push_back({i, (off + rng.uniform(0.5, 1.5)) * (rng.coin() ? 1 : -1)});
+            double sc = std::pow(10.0, rng.uniform(-3.0, 3.0));
+            for (auto& e : r) e.second *= sc;
+            for (size_t k = r.size(); k > 1; k--) std::swap(r[k - 1], r[rng.range(0, (int)k - 1)]);
+            rows[i] = r;
+        }
+        for (int ctor = 0; ctor < 2; ctor++) {
+            std::vector<double> vals; std::vector<int> cols, rp{0}; std::vector<triplet> trips;
+            for (int i = 0; i < n; i++) { for (auto& e : rows[i]) { vals.push_back(e.second); cols.push_back(e.first); trips.push_back({i, e.first, e.second}); } rp.push_back((int)vals.size()); }
+            SparseMatrixCSR<double> A = ctor ? SparseMatrixCSR<double>(n, n, trips) : SparseMatrixCSR<double>(n, n, vals, cols, rp);
+            SparseLUSolver<double> lu(A);
+            for (int rr = 0; rr < 2; rr++) {
+                std::vector<double> rhs(n);
+                for (auto& v : rhs) v = std::ldexp(rng.uniform(-1, 1), rng.range(-8, 8));
+                Vector<double> x(rhs);
+                lu.solveInPlace(x);
+                long double worst = 0;
+                bool finite = true;
+                for (int i = 0; i < n; i++) {
+                    long double ax = 0, mag = std::abs((long double)rhs[i]);
+                    for (auto& e : rows[i]) { ax += (long double)e.second * x[e.first]; mag += std::abs((long double)e.second * x[e.first]); }
+                    if (!std::isfinite(x[i])) finite = false;
+                    if (mag > 0) worst = std::max(worst, std::abs(ax - (long double)rhs[i]) / mag);
+                }
+                printf("LUBIG n=%d ctor=%s rhs_no=%d backward_error=%s finite=%d\n", n, ctor ? "trip" : "arr", rr, hex((double)worst).c_str(), (int)finite);
+            }
+        }
+    }
+}
+
 static int mode_lu(int cases, int max_n)
 {
     Rng rng(seed_from_env());
@@ -229,6 +277,7 @@ static int mode_lu(int cases, int max_n)
         SpMat m = gen_sparse(rng, max_n);
         emit_lu_case(m, rng.coin(), rng, rng.range(1, 3));
     }
+    lu_big(rng, cases >= 2000);
     printf("end\n");
     return 0;
 }
